@@ -10,13 +10,14 @@ Section Proofs.
   Variable ksign : K -> K.
   Variable kpos : K -> bool.
   Variable kofZ : Z -> K.
+  Variable sup : supply.
 
   Notation value := (value K).
   Notation state := (state K).
   Notation strip := (strip K).
   Notation raw := (raw K kadd ksub kmul kopp kF ksign).
   Notation apply_prim := (apply_prim K kadd ksub kmul kopp kF ksign).
-  Notation eval := (eval K k0 k1 kadd ksub kmul kopp kF ksign kpos kofZ).
+  Notation eval := (eval K k0 k1 kadd ksub kmul kopp kF ksign kpos kofZ sup).
   Notation unbox_at := (unbox_at K).
   Notation find_top := (find_top K).
   Notation all_num := (all_num K).
@@ -102,20 +103,20 @@ Section Proofs.
 
   (* ---------- the trace-depth counter ---------- *)
   Definition keeps_top (A : Type) (m : state -> M K A) : Prop :=
-    forall s r s', m s = (r, s') -> top K s' = top K s.
+    forall s r s', m s = (r, s') -> top K s' = top K s /\ noise K s' = noise K s.
 
   Lemma keeps_ret A (a : A) : keeps_top A (ret K a).
-  Proof. intros s r s' H. inversion H. reflexivity. Qed.
+  Proof. intros s r s' H. inversion H. auto. Qed.
 
   Lemma keeps_err A c : keeps_top A (fun s => (Err c, s)).
-  Proof. intros s r s' H. inversion H. reflexivity. Qed.
+  Proof. intros s r s' H. inversion H. auto. Qed.
 
   Lemma keeps_bind A B (m : state -> M K A) (f : A -> state -> M K B) :
     keeps_top A m -> (forall a, keeps_top B (f a)) ->
     keeps_top B (fun s => bind K (m s) f).
   Proof.
     intros Hm Hf s r s' H. destruct (m s) as [[a|c|] s1] eqn:E; simpl in H.
-    - apply Hf in H. apply Hm in E. congruence.
+    - apply Hf in H. apply Hm in E. destruct H, E. split; congruence.
     - inversion H; subst. now apply Hm in E.
     - inversion H; subst. now apply Hm in E.
   Qed.
@@ -157,7 +158,7 @@ Section Proofs.
   Lemma keeps_apply_prim : forall fuel p args, keeps_top value (apply_prim fuel p args).
   Proof.
     induction fuel as [|f IH]; intros p args s r s' H; simpl in H.
-    - now inversion H.
+    - inversion H. auto.
     - destruct (find_top args (-1) None) as [t [knd|]].
       + destruct (is_notrace p); [now apply IH in H|].
         revert H. apply (keeps_bind _ _ (apply_prim f p (map (unbox_at t) args))); [apply IH|].
@@ -167,9 +168,9 @@ Section Proofs.
           apply keeps_bind; [apply keeps_jvp_sum; apply IH|]. intros; apply keeps_ret.
         * destruct (negb (has_vjp p)); [apply keeps_err|].
           destruct (as_nv K (boxed_at K t 0 args)) as [ps|]; [|apply keeps_err].
-          intros s0 r0 s0' H0. inversion H0. reflexivity.
-      + destruct (all_num args) as [ks|]; [|now inversion H].
-        destruct (raw p ks); inversion H; reflexivity.
+          intros s0 r0 s0' H0. inversion H0. auto.
+      + destruct (all_num args) as [ks|]; [|inversion H; auto].
+        destruct (raw p ks); inversion H; auto.
   Qed.
 
   Notation node_vjp := (node_vjp K kadd ksub kmul kopp kF ksign).
@@ -209,7 +210,7 @@ Section Proofs.
     intros s r s' H. unfold Tagged.backward_pass in H.
     destruct (toposort (node_parents K (store K s)) e) as [ord|].
     - now apply keeps_backward_loop in H.
-    - now inversion H.
+    - inversion H. auto.
   Qed.
 
   Fixpoint no_try (e : exp) : bool :=
@@ -221,101 +222,254 @@ Section Proofs.
     | Try _ _ => false
     end.
 
-  (* new_trace: top+1 on entry, top-1 on normal exit only.  No call ever
-     lowers the counter; a call that raises (or catches a failure inside) may
-     leave it raised; a call in which nothing is caught and that returns
-     normally leaves it exactly where it found it. *)
-  Theorem eval_top : forall fuel env e s r s',
-      eval fuel env e s = (r, s') ->
-      (top K s <= top K s')%Z
+  (* ---- the id supply ---- *)
+  Definition quiet (s : state) : Prop := noise K s = [].
+  Definition calm (s : state) : Prop := Forall (fun d => (0 <= d)%Z) (noise K s).
+
+  Lemma enter_quiet s t s' : quiet s -> enter K s = (t, s') ->
+    t = (top K s + 1)%Z /\ top K s' = t /\ quiet s' /\ store K s' = store K s.
+  Proof.
+    unfold quiet, enter, draw. intros Hq. rewrite Hq. intros H. inversion H; subst.
+    simpl. repeat split; auto; lia.
+  Qed.
+
+  Lemma enter_calm s t s' : calm s -> enter K s = (t, s') ->
+    (top K s < t)%Z /\ top K s' = t /\ calm s'.
+  Proof.
+    unfold calm, enter, draw. intros Hc. destruct (noise K s) as [|d r] eqn:En.
+    - intros H. inversion H; subst. simpl. rewrite En. repeat split; auto; lia.
+    - intros H. inversion H; subst. simpl. inversion Hc; subst. repeat split; auto; lia.
+  Qed.
+
+  (* Common skeleton: every step other than trace entry/exit leaves counter and
+     interference script untouched.  The two theorems below instantiate it. *)
+
+  (* (a) the pinned design (shared depth counter), thread running alone: no
+     call ever lowers the counter; a call that raises (or catches a failure
+     inside) may leave it raised; a try-free call that returns normally leaves
+     it exactly where it found it. *)
+  Theorem eval_top_depth : sup = Depth -> forall fuel env e s r s',
+      quiet s -> eval fuel env e s = (r, s') ->
+      quiet s' /\ (top K s <= top K s')%Z
       /\ (no_try e = true -> forall v, r = Val v -> top K s' = top K s).
   Proof.
-    induction fuel as [|f IH]; intros env e s r s' H; simpl in H.
-    - inversion H. split; [lia|discriminate].
+    intros Hsup. induction fuel as [|f IH]; intros env e s r s' Hq H; simpl in H.
+    - inversion H; subst. repeat split; auto; try lia; discriminate.
     - destruct e; simpl no_try.
-      + destruct (nth_error env n); inversion H; split; (lia || reflexivity || discriminate).
-      + inversion H. split; [lia|reflexivity].
+      + destruct (nth_error env n); inversion H; subst; repeat split; auto; try lia; discriminate.
+      + inversion H; subst. repeat split; auto; lia.
       + destruct (eval f env e s) as [[va|c|] s1] eqn:E1; simpl in H.
-        * apply IH in E1. destruct E1 as [L1 R1].
-          apply keeps_apply_prim in H. split; [lia|].
-          intros Hn v _. rewrite H. now apply (R1 Hn va).
-        * inversion H; subst. apply IH in E1. split; [tauto|discriminate].
-        * inversion H; subst. apply IH in E1. split; [tauto|discriminate].
+        * apply IH in E1; [|assumption]. destruct E1 as (Q1 & L1 & R1).
+          apply keeps_apply_prim in H. destruct H as [Ht Hn].
+          repeat split; [unfold quiet in *; congruence|lia|].
+          intros Hno v _. rewrite Ht. now apply (R1 Hno va).
+        * inversion H; subst. apply IH in E1; [|assumption]. destruct E1 as (Q1 & L1 & R1).
+          repeat split; auto; discriminate.
+        * inversion H; subst. apply IH in E1; [|assumption]. destruct E1 as (Q1 & L1 & R1).
+          repeat split; auto; discriminate.
       + destruct (eval f env e1 s) as [[va|c|] s1] eqn:E1; simpl in H.
-        * apply IH in E1. destruct E1 as [L1 R1].
+        * apply IH in E1; [|assumption]. destruct E1 as (Q1 & L1 & R1).
           destruct (eval f env e2 s1) as [[vb|c|] s2] eqn:E2; simpl in H.
-          -- apply IH in E2. destruct E2 as [L2 R2].
-             apply keeps_apply_prim in H. split; [lia|].
-             intros Hn v _. apply andb_prop in Hn. destruct Hn as [Hn1 Hn2].
-             rewrite H, (R2 Hn2 vb eq_refl). now apply (R1 Hn1 va).
-          -- inversion H; subst. apply IH in E2. split; [lia|discriminate].
-          -- inversion H; subst. apply IH in E2. split; [lia|discriminate].
-        * inversion H; subst. apply IH in E1. split; [tauto|discriminate].
-        * inversion H; subst. apply IH in E1. split; [tauto|discriminate].
+          -- apply IH in E2; [|assumption]. destruct E2 as (Q2 & L2 & R2).
+             apply keeps_apply_prim in H. destruct H as [Ht Hn].
+             repeat split; [unfold quiet in *; congruence|lia|].
+             intros Hno v _. apply andb_prop in Hno. destruct Hno as [Hn1 Hn2].
+             rewrite Ht, (R2 Hn2 vb eq_refl). now apply (R1 Hn1 va).
+          -- inversion H; subst. apply IH in E2; [|assumption]. destruct E2 as (Q2 & L2 & R2).
+             repeat split; auto; try lia; discriminate.
+          -- inversion H; subst. apply IH in E2; [|assumption]. destruct E2 as (Q2 & L2 & R2).
+             repeat split; auto; try lia; discriminate.
+        * inversion H; subst. apply IH in E1; [|assumption]. destruct E1 as (Q1 & L1 & R1).
+          repeat split; auto; discriminate.
+        * inversion H; subst. apply IH in E1; [|assumption]. destruct E1 as (Q1 & L1 & R1).
+          repeat split; auto; discriminate.
       + destruct (eval f env e1 s) as [[va|c|] s1] eqn:E1; simpl in H.
-        * apply IH in E1. destruct E1 as [L1 R1].
-          apply IH in H. destruct H as [L2 R2]. split; [lia|].
-          intros Hn v Hv. apply andb_prop in Hn. destruct Hn as [Hn1 Hn2].
+        * apply IH in E1; [|assumption]. destruct E1 as (Q1 & L1 & R1).
+          apply IH in H; [|assumption]. destruct H as (Q2 & L2 & R2).
+          repeat split; auto; try lia.
+          intros Hno v Hv. apply andb_prop in Hno. destruct Hno as [Hn1 Hn2].
           rewrite (R2 Hn2 v Hv). now apply (R1 Hn1 va).
-        * inversion H; subst. apply IH in E1. split; [tauto|discriminate].
-        * inversion H; subst. apply IH in E1. split; [tauto|discriminate].
+        * inversion H; subst. apply IH in E1; [|assumption]. destruct E1 as (Q1 & L1 & R1).
+          repeat split; auto; discriminate.
+        * inversion H; subst. apply IH in E1; [|assumption]. destruct E1 as (Q1 & L1 & R1).
+          repeat split; auto; discriminate.
       + destruct (eval f env e1 s) as [[vc|c|] s1] eqn:E1; simpl in H.
-        * apply IH in E1. destruct E1 as [L1 R1].
-          destruct (kpos (strip vc)); apply IH in H; destruct H as [L2 R2];
-            (split; [lia|intros Hn v Hv;
-                          apply andb_prop in Hn; destruct Hn as [Hn12 Hn3];
-                          apply andb_prop in Hn12; destruct Hn12 as [Hn1 Hn2];
-                          rewrite (R2 ltac:(assumption) v Hv); now apply (R1 Hn1 vc)]).
-        * inversion H; subst. apply IH in E1. split; [tauto|discriminate].
-        * inversion H; subst. apply IH in E1. split; [tauto|discriminate].
+        * apply IH in E1; [|assumption]. destruct E1 as (Q1 & L1 & R1).
+          destruct (kpos (strip vc)); (apply IH in H; [|assumption]); destruct H as (Q2 & L2 & R2);
+            (repeat split; auto; try lia;
+             intros Hno v Hv;
+             apply andb_prop in Hno; destruct Hno as [Hn12 Hn3];
+             apply andb_prop in Hn12; destruct Hn12 as [Hn1 Hn2];
+             rewrite (R2 ltac:(assumption) v Hv); now apply (R1 Hn1 vc)).
+        * inversion H; subst. apply IH in E1; [|assumption]. destruct E1 as (Q1 & L1 & R1).
+          repeat split; auto; discriminate.
+        * inversion H; subst. apply IH in E1; [|assumption]. destruct E1 as (Q1 & L1 & R1).
+          repeat split; auto; discriminate.
       + (* Grad *)
         destruct (eval f env e2 s) as [[x|c|] s1] eqn:E1; simpl in H.
-        * apply IH in E1. destruct E1 as [L1 R1].
+        * apply IH in E1; [|assumption]. destruct E1 as (Q1 & L1 & R1).
+          destruct (enter K s1) as [t se] eqn:Een.
+          destruct (enter_quiet s1 t se Q1 Een) as (Ht & Hse & Qse & _).
           match type of H with
           | bind K (eval f ?env' e1 ?s2) _ = _ =>
             destruct (eval f env' e1 s2) as [[endv|c|] s3] eqn:E2
           end; simpl in H.
-          -- apply IH in E2. destruct E2 as [L2 R2]. simpl in L2, R2.
-             assert (Hfin : top K s' = (top K s3 - 1)%Z).
+          -- apply IH in E2; [|exact Qse]. destruct E2 as (Q2 & L2 & R2). simpl in L2, R2.
+             assert (Hlv : quiet (leave K sup s3) /\ top K (leave K sup s3) = (top K s3 - 1)%Z).
+             { unfold leave, draw. rewrite Hsup. unfold quiet in Q2. rewrite Q2. simpl.
+               split; [exact Q2|lia]. }
+             destruct Hlv as [Ql Tl].
+             assert (Hfin : quiet s' /\ top K s' = (top K s3 - 1)%Z).
              { destruct endv as [k|t' ev [tg|en]].
-               - inversion H; subst. reflexivity.
-               - destruct (Z.eqb t' (top K s1 + 1)); inversion H; subst; reflexivity.
-               - destruct (Z.eqb t' (top K s1 + 1)).
-                 + apply keeps_backward_pass in H. simpl in H. assumption.
-                 + inversion H; subst; reflexivity. }
-             split; [lia|].
-             intros Hn v _. apply andb_prop in Hn. destruct Hn as [Hn1 Hn2].
+               - inversion H; subst. auto.
+               - destruct (Z.eqb t' t); inversion H; subst; auto.
+               - destruct (Z.eqb t' t).
+                 + apply keeps_backward_pass in H. destruct H as [H1 H2].
+                   split; [unfold quiet in *; congruence|congruence].
+                 + inversion H; subst; auto. }
+             destruct Hfin as [Qf Tf]. repeat split; auto; try lia.
+             intros Hno v _. apply andb_prop in Hno. destruct Hno as [Hn1 Hn2].
              specialize (R1 Hn2 x eq_refl). specialize (R2 Hn1 endv eq_refl). lia.
-          -- inversion H; subst. apply IH in E2. simpl in E2. split; [lia|discriminate].
-          -- inversion H; subst. apply IH in E2. simpl in E2. split; [lia|discriminate].
-        * inversion H; subst. apply IH in E1. split; [tauto|discriminate].
-        * inversion H; subst. apply IH in E1. split; [tauto|discriminate].
+          -- inversion H; subst. apply IH in E2; [|exact Qse]. destruct E2 as (Q2 & L2 & R2).
+             simpl in L2. repeat split; auto; try lia; discriminate.
+          -- inversion H; subst. apply IH in E2; [|exact Qse]. destruct E2 as (Q2 & L2 & R2).
+             simpl in L2. repeat split; auto; try lia; discriminate.
+        * inversion H; subst. apply IH in E1; [|assumption]. destruct E1 as (Q1 & L1 & R1).
+          repeat split; auto; discriminate.
+        * inversion H; subst. apply IH in E1; [|assumption]. destruct E1 as (Q1 & L1 & R1).
+          repeat split; auto; discriminate.
       + (* Deriv *)
         destruct (eval f env e2 s) as [[x|c|] s1] eqn:E1; simpl in H.
-        * apply IH in E1. destruct E1 as [L1 R1].
+        * apply IH in E1; [|assumption]. destruct E1 as (Q1 & L1 & R1).
+          destruct (enter K s1) as [t se] eqn:Een.
+          destruct (enter_quiet s1 t se Q1 Een) as (Ht & Hse & Qse & _).
           match type of H with
           | bind K (eval f ?env' e1 ?s2) _ = _ =>
             destruct (eval f env' e1 s2) as [[endv|c|] s3] eqn:E2
           end; simpl in H.
-          -- apply IH in E2. destruct E2 as [L2 R2]. simpl in L2, R2.
-             assert (Hfin : top K s' = (top K s3 - 1)%Z).
+          -- apply IH in E2; [|exact Qse]. destruct E2 as (Q2 & L2 & R2).
+             assert (Hlv : quiet (leave K sup s3) /\ top K (leave K sup s3) = (top K s3 - 1)%Z).
+             { unfold leave, draw. rewrite Hsup. unfold quiet in Q2. rewrite Q2. simpl.
+               split; [exact Q2|lia]. }
+             destruct Hlv as [Ql Tl].
+             assert (Hfin : quiet s' /\ top K s' = (top K s3 - 1)%Z).
              { destruct endv as [k|t' ev [tg|en]].
-               - inversion H; subst. reflexivity.
-               - destruct (Z.eqb t' (top K s1 + 1)); inversion H; subst; reflexivity.
-               - destruct (Z.eqb t' (top K s1 + 1)); inversion H; subst; reflexivity. }
-             split; [lia|].
-             intros Hn v _. apply andb_prop in Hn. destruct Hn as [Hn1 Hn2].
+               - inversion H; subst. auto.
+               - destruct (Z.eqb t' t); inversion H; subst; auto.
+               - destruct (Z.eqb t' t); inversion H; subst; auto. }
+             destruct Hfin as [Qf Tf]. repeat split; auto; try lia.
+             intros Hno v _. apply andb_prop in Hno. destruct Hno as [Hn1 Hn2].
              specialize (R1 Hn2 x eq_refl). specialize (R2 Hn1 endv eq_refl). lia.
-          -- inversion H; subst. apply IH in E2. simpl in E2. split; [lia|discriminate].
-          -- inversion H; subst. apply IH in E2. simpl in E2. split; [lia|discriminate].
-        * inversion H; subst. apply IH in E1. split; [tauto|discriminate].
-        * inversion H; subst. apply IH in E1. split; [tauto|discriminate].
-      + inversion H. split; [lia|discriminate].
-      + split; [|discriminate].
-        destruct (eval f env e1 s) as [[v|c|] s1] eqn:E1.
-        * inversion H; subst. apply IH in E1. tauto.
-        * apply IH in E1. apply IH in H. lia.
-        * inversion H; subst. apply IH in E1. tauto.
+          -- inversion H; subst. apply IH in E2; [|exact Qse]. destruct E2 as (Q2 & L2 & R2).
+             repeat split; auto; try lia; discriminate.
+          -- inversion H; subst. apply IH in E2; [|exact Qse]. destruct E2 as (Q2 & L2 & R2).
+             repeat split; auto; try lia; discriminate.
+        * inversion H; subst. apply IH in E1; [|assumption]. destruct E1 as (Q1 & L1 & R1).
+          repeat split; auto; discriminate.
+        * inversion H; subst. apply IH in E1; [|assumption]. destruct E1 as (Q1 & L1 & R1).
+          repeat split; auto; discriminate.
+      + inversion H; subst. repeat split; auto; try lia; discriminate.
+      + destruct (eval f env e1 s) as [[v|c|] s1] eqn:E1.
+        * inversion H; subst. apply IH in E1; [|assumption]. destruct E1 as (Q1 & L1 & R1).
+          repeat split; auto; discriminate.
+        * apply IH in E1; [|assumption]. destruct E1 as (Q1 & L1 & R1).
+          apply IH in H; [|assumption]. destruct H as (Q2 & L2 & R2).
+          repeat split; auto; try lia; discriminate.
+        * inversion H; subst. apply IH in E1; [|assumption]. destruct E1 as (Q1 & L1 & R1).
+          repeat split; auto; discriminate.
+  Qed.
+
+  (* (b) a strictly increasing supply that is never decremented: whatever
+     non-negative interference other threads cause, the counter never
+     decreases, so (enter_calm) every new trace id exceeds every id handed out
+     before it - in this thread or any other. *)
+  Theorem eval_top_mono : sup = Mono -> forall fuel env e s r s',
+      calm s -> eval fuel env e s = (r, s') -> calm s' /\ (top K s <= top K s')%Z.
+  Proof.
+    intros Hsup. induction fuel as [|f IH]; intros env e s r s' Hq H; simpl in H.
+    - inversion H; subst. split; auto; lia.
+    - destruct e.
+      + destruct (nth_error env n); inversion H; subst; split; auto; lia.
+      + inversion H; subst. split; auto; lia.
+      + destruct (eval f env e s) as [[va|c|] s1] eqn:E1; simpl in H.
+        * apply IH in E1; [|assumption]. destruct E1 as (Q1 & L1).
+          apply keeps_apply_prim in H. destruct H as [Ht Hn].
+          split; [unfold calm in *; congruence|lia].
+        * inversion H; subst. now apply IH in E1.
+        * inversion H; subst. now apply IH in E1.
+      + destruct (eval f env e1 s) as [[va|c|] s1] eqn:E1; simpl in H.
+        * apply IH in E1; [|assumption]. destruct E1 as (Q1 & L1).
+          destruct (eval f env e2 s1) as [[vb|c|] s2] eqn:E2; simpl in H.
+          -- apply IH in E2; [|assumption]. destruct E2 as (Q2 & L2).
+             apply keeps_apply_prim in H. destruct H as [Ht Hn].
+             split; [unfold calm in *; congruence|lia].
+          -- inversion H; subst. apply IH in E2; [|assumption]. destruct E2. split; auto; lia.
+          -- inversion H; subst. apply IH in E2; [|assumption]. destruct E2. split; auto; lia.
+        * inversion H; subst. now apply IH in E1.
+        * inversion H; subst. now apply IH in E1.
+      + destruct (eval f env e1 s) as [[va|c|] s1] eqn:E1; simpl in H.
+        * apply IH in E1; [|assumption]. destruct E1 as (Q1 & L1).
+          apply IH in H; [|assumption]. destruct H. split; auto; lia.
+        * inversion H; subst. now apply IH in E1.
+        * inversion H; subst. now apply IH in E1.
+      + destruct (eval f env e1 s) as [[vc|c|] s1] eqn:E1; simpl in H.
+        * apply IH in E1; [|assumption]. destruct E1 as (Q1 & L1).
+          destruct (kpos (strip vc)); (apply IH in H; [|assumption]); destruct H; split; auto; lia.
+        * inversion H; subst. now apply IH in E1.
+        * inversion H; subst. now apply IH in E1.
+      + destruct (eval f env e2 s) as [[x|c|] s1] eqn:E1; simpl in H.
+        * apply IH in E1; [|assumption]. destruct E1 as (Q1 & L1).
+          destruct (enter K s1) as [t se] eqn:Een.
+          destruct (enter_calm s1 t se Q1 Een) as (Ht & Hse & Qse).
+          match type of H with
+          | bind K (eval f ?env' e1 ?s2) _ = _ =>
+            destruct (eval f env' e1 s2) as [[endv|c|] s3] eqn:E2
+          end; simpl in H.
+          -- apply IH in E2; [|exact Qse]. destruct E2 as (Q2 & L2). simpl in L2.
+             assert (Hlv : leave K sup s3 = s3) by (unfold leave; now rewrite Hsup).
+             rewrite Hlv in H.
+             assert (Hfin : calm s' /\ top K s' = top K s3).
+             { destruct endv as [k|t' ev [tg|en]].
+               - inversion H; subst. auto.
+               - destruct (Z.eqb t' t); inversion H; subst; auto.
+               - destruct (Z.eqb t' t).
+                 + apply keeps_backward_pass in H. destruct H as [H1 H2].
+                   split; [unfold calm in *; congruence|congruence].
+                 + inversion H; subst; auto. }
+             destruct Hfin as [Qf Tf]. split; auto; lia.
+          -- inversion H; subst. apply IH in E2; [|exact Qse]. destruct E2 as (Q2 & L2).
+             simpl in L2. split; auto; lia.
+          -- inversion H; subst. apply IH in E2; [|exact Qse]. destruct E2 as (Q2 & L2).
+             simpl in L2. split; auto; lia.
+        * inversion H; subst. now apply IH in E1.
+        * inversion H; subst. now apply IH in E1.
+      + destruct (eval f env e2 s) as [[x|c|] s1] eqn:E1; simpl in H.
+        * apply IH in E1; [|assumption]. destruct E1 as (Q1 & L1).
+          destruct (enter K s1) as [t se] eqn:Een.
+          destruct (enter_calm s1 t se Q1 Een) as (Ht & Hse & Qse).
+          match type of H with
+          | bind K (eval f ?env' e1 ?s2) _ = _ =>
+            destruct (eval f env' e1 s2) as [[endv|c|] s3] eqn:E2
+          end; simpl in H.
+          -- apply IH in E2; [|exact Qse]. destruct E2 as (Q2 & L2).
+             assert (Hlv : leave K sup s3 = s3) by (unfold leave; now rewrite Hsup).
+             rewrite Hlv in H.
+             assert (Hfin : calm s' /\ top K s' = top K s3).
+             { destruct endv as [k|t' ev [tg|en]].
+               - inversion H; subst. auto.
+               - destruct (Z.eqb t' t); inversion H; subst; auto.
+               - destruct (Z.eqb t' t); inversion H; subst; auto. }
+             destruct Hfin as [Qf Tf]. split; auto; lia.
+          -- inversion H; subst. apply IH in E2; [|exact Qse]. destruct E2. split; auto; lia.
+          -- inversion H; subst. apply IH in E2; [|exact Qse]. destruct E2. split; auto; lia.
+        * inversion H; subst. now apply IH in E1.
+        * inversion H; subst. now apply IH in E1.
+      + inversion H; subst. split; auto; lia.
+      + destruct (eval f env e1 s) as [[v|c|] s1] eqn:E1.
+        * inversion H; subst. now apply IH in E1.
+        * apply IH in E1; [|assumption]. destruct E1 as (Q1 & L1).
+          apply IH in H; [|assumption]. destruct H. split; auto; lia.
+        * inversion H; subst. now apply IH in E1.
   Qed.
 
   (* ---------- non-differentiable primitives return plain values ---------- *)
